@@ -11,7 +11,7 @@ deriving DecidableEq, Repr, Inhabited
 
 inductive Value where
   | unknown
-  | failed
+  | failed (msg : String)
   | void
   | int (b : BI)
   | str (s : List Char) (enc : Enc)
@@ -103,7 +103,7 @@ def Value.getBigint : Value → Option BI
 
 def Value.shouldPropagate : Value → Bool
   | .unknown => true
-  | .failed => true
+  | .failed _ => true
   | _ => false
 
 end Casm
